@@ -41,6 +41,9 @@ import (
 	"time"
 
 	clock "github.com/jonboulle/clockwork"
+	"go.opentelemetry.io/otel"
+	sdktrace "go.opentelemetry.io/otel/sdk/trace"
+	"go.opentelemetry.io/otel/sdk/trace/tracetest"
 	"google.golang.org/grpc"
 	"google.golang.org/protobuf/proto"
 
@@ -819,7 +822,200 @@ func (w *vsyWorld) refusals(plan vsyPlan, id string) {
 }
 
 type vsyPlan struct {
-	Responses []string `json:"responses"`
+	Responses   []string `json:"responses"`
+	DamageForms []string `json:"damage_forms"`
+	DamageFiles []string `json:"damage_files"`
+}
+
+// ---------------------------------------------------------------- damaged private files (fault family of Secrecy.tla)
+
+// vsyDamage returns the file content with one fault placed relative to the line that holds the secret
+// (anchor = the TOML key of that line).  The secret's value stays in the file in every form.
+func vsyDamage(content []byte, anchor, form string) ([]byte, bool) {
+	lines := strings.Split(strings.TrimRight(string(content), "\n"), "\n")
+	at := -1
+	for i, l := range lines {
+		if strings.HasPrefix(l, anchor+" ") || strings.HasPrefix(l, anchor+"=") {
+			at = i
+			break
+		}
+	}
+	if at < 0 {
+		return nil, false
+	}
+	ins := func(i int, l string) []string {
+		if i > len(lines) {
+			i = len(lines)
+		}
+		out := append([]string{}, lines[:i]...)
+		out = append(out, l)
+		return append(out, lines[i:]...)
+	}
+	join := func(ls []string) []byte { return []byte(strings.Join(ls, "\n") + "\n") }
+	switch form {
+	case "syntax-before":
+		return join(ins(at, `Comment = "edited by hand`)), true
+	case "syntax-on":
+		ls := append([]string{}, lines...)
+		ls[at] = strings.TrimSuffix(ls[at], `"`)
+		return join(ls), true
+	case "syntax-after-1": // the classic slip: the next line loses its quotes
+		if at+1 < len(lines) && strings.Contains(lines[at+1], `"`) {
+			ls := append([]string{}, lines...)
+			ls[at+1] = strings.ReplaceAll(ls[at+1], `"`, "")
+			return join(ls), true
+		}
+		return join(ins(at+1, `SchemeNote = pedersen-bls-chained`)), true
+	case "syntax-after-2":
+		return join(ins(at+2, `Migrated = yes, by hand`)), true
+	case "truncated-after":
+		ls := append([]string{}, lines[:at+1]...)
+		tail := "SchemeNa"
+		if at+1 < len(lines) && len(lines[at+1]) > 4 {
+			tail = lines[at+1][:len(lines[at+1])/2]
+		}
+		return []byte(strings.Join(ls, "\n") + "\n" + tail), true
+	case "duplicated-key":
+		return join(ins(at+1, lines[at])), true
+	case "wrong-type-after":
+		ls := append([]string{}, lines...)
+		for i := at + 1; i < len(ls); i++ {
+			if strings.HasPrefix(ls[i], "SchemeName") {
+				ls[i] = "SchemeName = 5"
+				return join(ls), true
+			}
+		}
+		return join(ins(at+1, "SchemeName = 5")), true
+	case "wrong-type-before":
+		var ls []string
+		for _, l := range lines {
+			if !strings.HasPrefix(l, "SchemeName") {
+				ls = append(ls, l)
+			}
+		}
+		lines = ls
+		return join(ins(0, "SchemeName = 5")), true
+	case "empty":
+		return []byte{}, true
+	}
+	return nil, false
+}
+
+func (w *vsyWorld) stopChain(id string) {
+	if w.bp(id) == nil {
+		return
+	}
+	vlib.Call(20*time.Second, func() {
+		_, _ = w.dd.Shutdown(context.Background(), &drand.ShutdownRequest{Metadata: &drand.Metadata{BeaconID: id}})
+	})
+}
+
+// damagedFiles: for every (file, form) of the plan the private file of the (stopped) chain `id` is damaged, every
+// loader of that file is driven - the key store as the CLI uses it, the self-sign migration of daemon start, the
+// control API LoadBeacon; for the key file also PublicKey of the RUNNING chain `running` - and the file is restored.
+// Returned errors, replies, log lines and span errors are scanned like everything else.
+func (w *vsyWorld) damagedFiles(tr *vlib.Trace, scenario string, plan vsyPlan, id, running string, lg dlog.Logger) {
+	anchors := map[string]string{"key.private": "Key", "share": "Share", "group": "Threshold"}
+	_ = os.RemoveAll(filepath.Join(w.dd.opts.ConfigFolderMB(), "nosuch"))
+	pathOf := func(chain, kind string) string {
+		base := filepath.Join(w.dd.opts.ConfigFolderMB(), chain)
+		switch kind {
+		case "key.private":
+			return filepath.Join(base, key.FolderName, "drand_id.private")
+		case "share":
+			return filepath.Join(base, key.GroupFolderName, "dist_key.private")
+		}
+		return filepath.Join(base, key.GroupFolderName, "drand_group.toml")
+	}
+	ctx := context.Background()
+	for _, kind := range plan.DamageFiles {
+		anchor, ok := anchors[kind]
+		if !ok {
+			tr.Emit("Note", vlib.E{"scenario": scenario, "what": "no driver for damaged file", "key": kind, "phase": "damaged"})
+			continue
+		}
+		for _, form := range plan.DamageForms {
+			cas := fmt.Sprintf("damaged %s: %s", kind, form)
+			targets := []string{id}
+			if kind == "key.private" {
+				targets = append(targets, running)
+			}
+			for _, chainID := range targets {
+				p := pathOf(chainID, kind)
+				orig, err := os.ReadFile(p)
+				if err != nil {
+					tr.Emit("Note", vlib.E{"scenario": scenario, "what": "file to damage is missing: " + err.Error(), "key": kind, "phase": "damaged"})
+					continue
+				}
+				bad, ok := vsyDamage(orig, anchor, form)
+				if !ok {
+					tr.Emit("Note", vlib.E{"scenario": scenario, "what": "form not applicable: " + form, "key": kind, "phase": "damaged"})
+					continue
+				}
+				if err := os.WriteFile(p, bad, 0o600); err != nil {
+					continue
+				}
+				if chainID == running {
+					// the running chain reads its key file at every PublicKey request
+					r := vlib.Call(20*time.Second, func() {
+						resp, err := w.dd.PublicKey(ctx, &drand.PublicKeyRequest{Metadata: &drand.Metadata{BeaconID: chainID}})
+						w.rec.addReply("control/PublicKey", cas+" (running chain)", resp, err)
+					})
+					_ = r
+				} else {
+					st := key.NewFileStore(w.dd.opts.ConfigFolderMB(), chainID)
+					report := func(what string, err error) {
+						if err != nil {
+							w.rec.addCase("stdout/line", cas+" ("+what+")", false, []byte(what+": "+err.Error()))
+						}
+					}
+					switch kind {
+					case "key.private":
+						_, err := st.LoadKeyPair()
+						report("key store LoadKeyPair", err)
+					case "share":
+						_, err := st.LoadShare()
+						report("key store LoadShare", err)
+					default:
+						_, err := st.LoadGroup()
+						report("key store LoadGroup", err)
+					}
+					report("self-sign migration", key.SelfSignAll(lg, w.dd.opts.ConfigFolderMB()))
+					w.stopChain(chainID)
+					r := vlib.Call(30*time.Second, func() {
+						resp, err := w.dd.LoadBeacon(ctx, &drand.LoadBeaconRequest{Metadata: &drand.Metadata{BeaconID: chainID}})
+						w.rec.addReply("control/LoadBeacon", cas, resp, err)
+					})
+					if !r.Returned {
+						w.rec.addCase("control/LoadBeacon", cas, true, []byte("blocked"))
+					}
+					w.stopChain(chainID)
+				}
+				_ = os.WriteFile(p, orig, 0o600)
+			}
+		}
+	}
+}
+
+// spans: what the tracing backend would receive (span name, status, attributes, recorded errors).
+func (w *vsyWorld) spans(sr *tracetest.SpanRecorder) {
+	for _, sp := range sr.Ended() {
+		if len(sp.Events()) == 0 && sp.Status().Description == "" {
+			continue
+		}
+		var b bytes.Buffer
+		fmt.Fprintf(&b, "span %s status=%v %s", sp.Name(), sp.Status().Code, sp.Status().Description)
+		for _, a := range sp.Attributes() {
+			fmt.Fprintf(&b, " %s=%s", a.Key, a.Value.Emit())
+		}
+		for _, ev := range sp.Events() {
+			fmt.Fprintf(&b, " event %s", ev.Name)
+			for _, a := range ev.Attributes {
+				fmt.Fprintf(&b, " %s=%s", a.Key, a.Value.Emit())
+			}
+		}
+		w.rec.add("trace/span", false, b.Bytes())
+	}
 }
 
 func (w *vsyWorld) runPlan(tr *vlib.Trace, scenario string, plan vsyPlan, id, phase string) {
@@ -853,6 +1049,11 @@ func vsyRunDaemon(t *testing.T, tr *vlib.Trace, sch *crypto.Scheme, plan vsyPlan
 		(&vsySink{rec: rec, key: "stdout/line"}).Write(b)
 	}
 	defer restore()
+	// spans go to an in-memory recorder instead of a tracing backend
+	sr := tracetest.NewSpanRecorder()
+	prevTP := otel.GetTracerProvider()
+	otel.SetTracerProvider(sdktrace.NewTracerProvider(sdktrace.WithSpanProcessor(sr)))
+	defer otel.SetTracerProvider(prevTP)
 	var w *vsyWorld
 	fail := func(why string) {
 		restore()
@@ -938,8 +1139,11 @@ func vsyRunDaemon(t *testing.T, tr *vlib.Trace, sch *crypto.Scheme, plan vsyPlan
 	if r.Returned && r.Panic == "" {
 		rec.addMsg("control/Shutdown", sresp, err)
 	}
+	// chain b is stopped: its private files are damaged in every form of the plan and every loader is driven
+	w.damagedFiles(tr, name, plan, "b", "default", w.dd.log)
 	w.snapshot("final")
 	w.stop()
+	w.spans(sr)
 	time.Sleep(100 * time.Millisecond)
 	restore()
 	w.flush(tr)
